@@ -54,6 +54,8 @@ where
     pub fn send(&self, item: ActionOp<T>) -> Result<i64, SenderError<ActionOp<T>>> {
         let r = match self.policy {
             BackpressurePolicy::BlockOnFull => {
+                #[cfg(rs_store_verif)]
+                crate::verif::point("chan.send");
                 match self.sender.send(item).map_err(|e| SenderError::SendError(e.0)) {
                     Ok(_) => Ok(self.receiver.len() as i64),
                     Err(e) => Err(e),
@@ -65,12 +67,16 @@ where
                     #[cfg(dev)]
                     eprintln!("store: dropping the oldest item in channel");
                     // Remove the oldest item
+                    #[cfg(rs_store_verif)]
+                    crate::verif::point("chan.do2");
                     let _old = self.receiver.try_recv();
                     if let Some(metrics) = &self.metrics {
                         if let Ok(ActionOp::Action(action)) = _old.as_ref() {
                             metrics.action_dropped(Some(action));
                         }
                     }
+                    #[cfg(rs_store_verif)]
+                    crate::verif::point("chan.do3");
                     match self.sender.try_send(item).map_err(SenderError::TrySendError) {
                         Ok(_) => Ok(self.receiver.len() as i64),
                         Err(e) => Err(e),
@@ -107,6 +113,20 @@ where
     }
 }
 
+#[cfg(rs_store_verif)]
+impl<T> SenderChannel<T>
+where
+    T: Send + Sync + Clone + 'static,
+{
+    /// (capacity, policy code) for the verification harness
+    pub(crate) fn verif_info(&self) -> (usize, u8) {
+        (
+            self.sender.capacity().unwrap_or(0),
+            crate::verif::policy_code(&self.policy),
+        )
+    }
+}
+
 #[allow(dead_code)]
 pub(crate) struct ReceiverChannel<T>
 where
@@ -132,6 +152,8 @@ where
     T: Send + Sync + Clone + 'static,
 {
     pub fn recv(&self) -> Option<ActionOp<T>> {
+        #[cfg(rs_store_verif)]
+        crate::verif::point("chan.recv");
         self.receiver.recv().ok()
     }
 
